@@ -9,6 +9,7 @@
   histories (and with a fresh registry brought to the same declarative state).
 -/
 import PintModel.Model.Registry
+import PintModel.Model.GroupSys
 
 namespace Pint.Props.C13
 
@@ -98,5 +99,76 @@ theorem C13_wrong_key_counterexample :
 theorem C13_isolated (fA fB : κ → ν) (mA mB : Memo κ ν) (k : κ) :
     let mA' := (mA.get fA k).2
     (mA', mB).2 = mB := rfl
+
+/-! ### histories that interleave queries with changes of the declarative state -/
+
+/-- an operation of a history: ask for `k`, or replace the declarative state (a definition, a new
+    default system, another context stack …) -/
+inductive Op (σ κ : Type)
+  | query (k : κ)
+  | change (s : σ)
+
+/-- the memo-free reference: every query is answered by the specification of the current state -/
+def runSpec {σ : Type} (spec : σ → κ → ν) : σ → List (Op σ κ) → List ν
+  | _, [] => []
+  | s, .query k :: t => spec s k :: runSpec spec s t
+  | _, .change s' :: t => runSpec spec s' t
+
+/-- policy 1 (pint's `_build_cache` / `default_system` setter): the table is cleared by every change of state -/
+def runClearing {σ : Type} (spec : σ → κ → ν) : σ → Memo κ ν → List (Op σ κ) → List ν
+  | _, _, [] => []
+  | s, m, .query k :: t => (m.get (spec s) k).1 :: runClearing spec s (m.get (spec s) k).2 t
+  | _, _, .change s' :: t => runClearing spec s' {} t
+
+/-- **any history, clearing policy**: every answer is the one the current declarative state implies -/
+theorem C13_history_clearing {σ : Type} (spec : σ → κ → ν) (s : σ) (m : Memo κ ν) (h : MemoInv m (spec s))
+    (ops : List (Op σ κ)) : runClearing spec s m ops = runSpec spec s ops := by
+  induction ops generalizing s m with
+  | nil => rfl
+  | cons o t ih =>
+    cases o with
+    | query k =>
+      obtain ⟨h1, h2⟩ := C13_memo_step m (spec s) h k
+      simp only [runClearing, runSpec]
+      rw [h1, ih s _ h2]
+    | change s' =>
+      simp only [runClearing, runSpec]
+      exact ih s' {} (inv_empty _)
+
+/-- policy 2 (pint's per-context-stack overlays, `_caches[active contexts]`): the table is keyed by the
+    state component as well and never cleared -/
+def runKeyed {σ : Type} [DecidableEq σ] (spec : σ → κ → ν) : σ → Memo (σ × κ) ν → List (Op σ κ) → List ν
+  | _, _, [] => []
+  | s, m, .query k :: t =>
+    (m.get (fun p => spec p.1 p.2) (s, k)).1 :: runKeyed spec s (m.get (fun p => spec p.1 p.2) (s, k)).2 t
+  | _, m, .change s' :: t => runKeyed spec s' m t
+
+/-- **any history, keyed policy**: answers computed in one state are never served in another -/
+theorem C13_history_keyed {σ : Type} [DecidableEq σ] (spec : σ → κ → ν) (s : σ) (m : Memo (σ × κ) ν)
+    (h : MemoInv m (fun p => spec p.1 p.2)) (ops : List (Op σ κ)) :
+    runKeyed spec s m ops = runSpec spec s ops := by
+  induction ops generalizing s m with
+  | nil => rfl
+  | cons o t ih =>
+    cases o with
+    | query k =>
+      obtain ⟨h1, h2⟩ := C13_memo_step m (fun p => spec p.1 p.2) h (s, k)
+      simp only [runKeyed, runSpec]
+      rw [h1, ih s _ h2]
+    | change s' =>
+      simp only [runKeyed, runSpec]
+      exact ih s' m h
+
+/-- the two policies instantiated with the model's own functions: base units (keyed by units and system, cleared
+    when the registry, the groups/systems or the default system change) and dimensionality / root units -/
+theorem C13_base_units_history (s : Registry × GS.State) (ops : List (Op (Registry × GS.State) (UC × Option String))) :
+    runClearing (fun (st : Registry × GS.State) (q : UC × Option String) => GS.getBaseUnits st.1 st.2 q.1 q.2) s {} ops =
+    runSpec (fun (st : Registry × GS.State) (q : UC × Option String) => GS.getBaseUnits st.1 st.2 q.1 q.2) s ops :=
+  C13_history_clearing _ s {} (inv_empty _) ops
+
+theorem C13_root_units_history (R : Registry) (ops : List (Op Registry UC)) :
+    runClearing (fun (R : Registry) (u : UC) => R.getRootUnits u) R {} ops =
+    runSpec (fun (R : Registry) (u : UC) => R.getRootUnits u) R ops :=
+  C13_history_clearing _ R {} (inv_empty _) ops
 
 end Pint.Props.C13
